@@ -799,7 +799,7 @@ func surviveCase(e *ev.Env, c *ev.Case, o appOpts, reqs []*rq, raw []byte, mutat
 		}
 	} else {
 		w := drive.NewWire(mk())
-		if e.Guard(c, "survive", detail, func() { out, _ = w.Serve(raw, nil) }) {
+		if guard(e, c, "survive", detail, func() { out, _ = w.Serve(raw, nil) }) {
 			e.Eval(1)
 			return
 		}
